@@ -185,7 +185,39 @@ func (x *Exec) native(name string, fn *ssa.Function, args []Value) (Value, bool)
 		if model == nil {
 			panic(abortPath{"FindIndex on symbolic data without a harness model", false})
 		}
-		return x.call(model, []Value{strOf(re.String()), data}, nil), true
+		return x.call(model, []Value{strOf(rePattern(re)), data}, nil), true
+	case "(*regexp.Regexp).FindAllStringIndex", "(*regexp.Regexp).FindStringIndex":
+		re, isRe := args[0].(Ptr).o.(*Cell).v.(Native).v.(*regexp.Regexp)
+		if !isRe {
+			panic(abortPath{"regexp match on a symbolic-pattern regexp", false})
+		}
+		s := args[1].(*Str)
+		if conc, ok := s.concrete(); ok {
+			if name == "(*regexp.Regexp).FindStringIndex" {
+				return x.intSlice(re.FindStringIndex(conc)), true
+			}
+			locs := re.FindAllStringIndex(conc, concInt(args[2]))
+			if locs == nil {
+				return SliceV{}, true
+			}
+			a := &ArrayObj{e: make([]Obj, len(locs))}
+			for i := range locs {
+				a.e[i] = &Cell{v: x.intSlice(locs[i])}
+			}
+			return SliceV{a: a, len: len(locs), cap: len(locs)}, true
+		}
+		if name == "(*regexp.Regexp).FindStringIndex" {
+			model := x.harnessPkg.Func("verifRegexFindIndex")
+			if model == nil {
+				panic(abortPath{"FindStringIndex on symbolic text without a harness model", false})
+			}
+			return x.call(model, []Value{strOf(rePattern(re)), x.convert(s, types.Typ[types.String], types.NewSlice(types.Typ[types.Byte]))}, nil), true
+		}
+		model := x.harnessPkg.Func("verifRegexFindAll")
+		if model == nil {
+			panic(abortPath{"FindAllStringIndex on symbolic text without a harness model", false})
+		}
+		return x.call(model, []Value{strOf(rePattern(re)), s, args[2]}, nil), true
 	case "(*regexp.Regexp).MatchString":
 		re := args[0].(Ptr).o.(*Cell).v.(Native).v.(*regexp.Regexp)
 		return Bool(re.MatchString(mustStr(args[1]))), true
@@ -312,6 +344,15 @@ func (x *Exec) native(name string, fn *ssa.Function, args []Value) (Value, bool)
 		return args[0], true
 	}
 	return nil, false
+}
+
+// rePattern returns the AWK-level pattern of a compiled regexp (goawk wraps patterns as "(?s:...)")
+func rePattern(re *regexp.Regexp) string {
+	p := re.String()
+	if strings.HasPrefix(p, "(?s:") && strings.HasSuffix(p, ")") {
+		return p[4 : len(p)-1]
+	}
+	return p
 }
 
 // intSlice builds a []int value (nil for a nil Go slice)
